@@ -28,6 +28,8 @@ SPEC = {
         "MerkleTree": {"skip_fields": ["algorithm"]},
         "ResponseHandler": {},
         "ParsedResponse": {},
+        "TagData": {},
+        "VersionData": {},
         "OnlineKey": {},
         "LongTermKey": {},
         "Responder": {"skip_fields": ["thread_id", "long_term_public_key"]},
@@ -71,6 +73,19 @@ SPEC = {
         "ServerStats::add_failed_send_attempt": {"lean": "({self} ++ [({ kind := Stats.Kind.failedSend, addr := {0}, bytes := 0 } : Stats.Event)])", "mutates": True},
     },
     "modules": {
+        # the two table modules are translated and bridged, but callers keep using the model tables through the
+        # externs above (the bridge theorems of Rough/Bridge/Tables.lean justify exactly those externs)
+        "Tag": {
+            "file": "src/tag.rs",
+            "keep_externs": True,
+            "functions": {"Tag::data": {}, "Tag::wire_value": {}, "Tag::from_wire": {}, "Tag::is_nested": {}, "Tag::as_string": {}},
+        },
+        "Version": {
+            "file": "src/version.rs",
+            "keep_externs": True,
+            "functions": {"Version::data": {}, "Version::wire_bytes": {}, "Version::as_string": {}, "Version::dele_prefix": {},
+                          "Version::sign_prefix": {}, "Version::supported_versions_wire": {}},
+        },
         "Message": {
             "file": "src/message.rs",
             "functions": {
@@ -181,7 +196,7 @@ SPEC = {
     },
     "consts_extern": {"UNIX_EPOCH": "()"},
     # constants defined in other files that the modules refer to
-    "const_files": ["src/lib.rs", "src/request.rs", "src/message.rs", "src/merkle.rs", "src/tag.rs", "src/bin/roughenough-client.rs", "src/key/longterm.rs", "src/key/online.rs", "src/responder.rs"],
+    "const_files": ["src/lib.rs", "src/request.rs", "src/message.rs", "src/merkle.rs", "src/tag.rs", "src/bin/roughenough-client.rs", "src/key/longterm.rs", "src/key/online.rs", "src/responder.rs", "src/version.rs"],
 }
 
 
@@ -220,6 +235,8 @@ def run(repo, outdir, report_path):
     crate.spec["functions"] = {}
     for mod, m in SPEC["modules"].items():
         for key, opts in m["functions"].items():
+            if m.get("keep_externs") and key in SPEC["externs"]:
+                continue    # callers go through the extern; the function itself is still translated below
             crate.spec["functions"][key] = opts
     os.makedirs(outdir, exist_ok=True)
     emitted_structs = set()
@@ -253,7 +270,7 @@ def run(repo, outdir, report_path):
                 for kind, name in sorted(em.deps):
                     if kind == "const" and name not in consts_needed: consts_needed.append(name)
                 fn_chunks.append(lines)
-                fn_deps[key] = [d for kind, d in em.deps if kind == "fn"]
+                fn_deps[key] = sorted(d for kind, d in em.deps if kind == "fn")
                 chunk_of[key] = lines
                 modrep["functions"][key] = "ok"
             except Unsupported as e:
